@@ -39,6 +39,16 @@ CHECKS.update({
              "roles) is not claimed (needs the AST boundary).",
         note="Trusted: operator table in /verif/spec/grammar.py; MIR dump, stubs, z3. Bounds: <= 3 operators (quick) / 4 (thorough) per expression.",
         technique=MC, design="6/C05"),
+    "C10": dict(
+        text="The literal accessors are executed from MIR on symbolic token texts: for every well-formed integer lexeme (4 radices, both prefix "
+             "cases, underscores, optional suffix; regex-constrained symbolic strings) value_u128() is proved equal to the SMT-defined value of "
+             "the digit string and radix/split_into_parts/suffix to match the text; for ANY text the real lexer accepts as an integer without "
+             "diagnostic value_u128() must be Some; BitString::str() is the text between the quotes and the graph width counts its 0/1 digits; "
+             "FloatNumber::split_into_parts partitions at the suffix.",
+        note="Trusted: from_str_radix model (exact arithmetic), string and text-size models, abstract token (text + symbolic start offset), MIR "
+             "dump, z3. Bounds: <= 5 (quick) / 9 (thorough) digit characters; float rounding declined; negation folding, units and the "
+             "literal -> ASG arm need the AST boundary and are not claimed.",
+        technique=MC, design="6/C10"),
     "C11": dict(
         text="(a) one Cursor::advance_token followed by the real inner_extend_token, and LexedStr::new on whole strings, are executed from MIR "
              "on symbolic code points. Proved on every path: a token whose kind carries a malformation flag gets an error entry with its own "
